@@ -111,3 +111,20 @@ Theorem roundtrip_single_security_exec regof sec latest rows0 :
 Proof.
   intros rows HQ Hv Hz. apply (roundtrip_single_security regof sec); [exact HQ | apply spec_nz_of_cells; assumption | apply sell_pos_of_valid; exact Hv].
 Qed.
+
+(* the same with quantities of at most 10 decimal places: a loss of $0.50 on
+   one share, 0.0000000001 shares bought five days later (the computed loss is
+   -0.00000000005, within 1e-10 of 0.00) *)
+Definition wit6 : list tx :=
+  [wrow 0 737000 (wbuy 10 10) default_aff; wrow 1 737100 (wbuy 5 10) spouse_aff; wrow 2 737101 (wsell 5 12) spouse_aff;
+   wrow 3 737110 (Sell (wq 1 1) (wq 19 2) (wq 0 1) (wq 1 1) (wq 1 1) (Some (wq 0 1, true))) default_aff;
+   wrow 4 737115 (Buy (wq 1 10000000000) (wq 10 1) (wq 0 1) (wq 1 1) (wq 1 1)) default_aff].
+Lemma wit6_fails :
+  history_ok exact wit6 = true /\ history_ok dec wit6 = true
+  /\ roundtrip_obs_ok exact wit5_date false wit6 = false /\ roundtrip_obs_ok dec wit5_date false wit6 = false
+  /\ K_summary_buy_in_window exact wit5_date false wit6 = false
+  /\ K_zero_balance_acb exact wit5_date wit6 = false
+  /\ K_idle_split_expansion exact wit5_date wit6 = false
+  /\ K_zero_sfl_cell wit6 = true
+  /\ Forall (rowQ no_reg 0) wit6 /\ forallb valid_tx wit6 = true.
+Proof. vm_compute. repeat split; repeat constructor. Qed.
